@@ -447,38 +447,8 @@ func (p *c04) Run(raw json.RawMessage) eng.Result {
 		}
 		res.Outcomes = []string{"values:" + c.Leaf}
 	case "lists":
-		// lists of 0..5 entries (ascending and descending key order), nested lists of 0..4 entries
-		keys := []string{"a", "b", "c", "d", "e"}
-		for n := 0; n <= len(keys); n++ {
-			for _, desc := range []bool{false, true} {
-				for nn := 0; nn <= 4; nn++ {
-					var entries []string
-					for i := 0; i < n; i++ {
-						k := keys[i]
-						if desc {
-							k = keys[n-1-i]
-						}
-						var nested []string
-						for j := 0; j < nn; j++ {
-							nested = append(nested, fmt.Sprintf(`{"j":%d,"u":"%s"}`, j+1, k))
-						}
-						e := fmt.Sprintf(`{"k":"%s","v":%d`, k, i+1)
-						if nn > 0 && i == n/2 {
-							e += `,"n":[` + strings.Join(nested, ",") + `]`
-						}
-						entries = append(entries, e+"}")
-					}
-					doc := `{"top":"a","l":[` + strings.Join(entries, ",") + `]}`
-					t, err := model.FromJSON(m.DataDefinitions(), []byte(doc))
-					if err != nil {
-						panic(err)
-					}
-					if n == 0 {
-						delete(t.Lists, "l")
-					}
-					c04Check(c, m, t, "tree "+t.String(), "", &res, ss)
-				}
-			}
+		for _, t := range longListTrees(m) {
+			c04Check(c, m, t, "tree "+t.String(), "", &res, ss)
 		}
 		res.Outcomes = []string{"lists"}
 	case "trees":
@@ -502,4 +472,43 @@ func (p *c04) Run(raw json.RawMessage) eng.Result {
 		res.Evals = 1
 	}
 	return res
+}
+
+// longListTrees: base-schema trees with lists of 0..5 entries (ascending and
+// descending key order) and a nested list of 0..4 entries in the middle entry.
+func longListTrees(m *meta.Module) []*model.Tree {
+	var out []*model.Tree
+	keys := []string{"a", "b", "c", "d", "e"}
+	for n := 0; n <= len(keys); n++ {
+		for _, desc := range []bool{false, true} {
+			for nn := 0; nn <= 4; nn++ {
+				var entries []string
+				for i := 0; i < n; i++ {
+					k := keys[i]
+					if desc {
+						k = keys[n-1-i]
+					}
+					var nested []string
+					for j := 0; j < nn; j++ {
+						nested = append(nested, fmt.Sprintf(`{"j":%d,"u":"%s"}`, j+1, k))
+					}
+					e := fmt.Sprintf(`{"k":"%s","v":%d`, k, i+1)
+					if nn > 0 && i == n/2 {
+						e += `,"n":[` + strings.Join(nested, ",") + `]`
+					}
+					entries = append(entries, e+"}")
+				}
+				doc := `{"top":"a","l":[` + strings.Join(entries, ",") + `]}`
+				t, err := model.FromJSON(m.DataDefinitions(), []byte(doc))
+				if err != nil {
+					panic(err)
+				}
+				if n == 0 {
+					delete(t.Lists, "l")
+				}
+				out = append(out, t)
+			}
+		}
+	}
+	return out
 }
